@@ -296,7 +296,20 @@ def dart_side():
     if not m:
         raise Bad('toFailureReason not found')
     cases = re.findall(r'case (SHOREBIRD_\w+):\s*return UpdateFailureReason\.(\w+);', m.group(1))
+    # "restart required": how the Dart layer derives it from the two patch numbers the library reports, and how a
+    # patch number becomes "a patch / no patch" (whitespace-normalised source text of those expressions)
+    norm = lambda x: re.sub(r'\s+', ' ', x).strip()
+    rr = [norm(x) for x in re.findall(r'return\s+(next != null[^;?]*\?\.number[^;?]*)\?\s*UpdateStatus\.restartRequired\s*:\s*UpdateStatus\.upToDate;', io, flags=re.S)]
+    rr += [norm(x) for x in re.findall(r'final status =\s*(next != null[^;?]*\?\.number[^;?]*)\?\s*UpdateStatus\.restartRequired\s*:\s*UpdateStatus\.upToDate;', io, flags=re.S)]
+    pn = [norm(x) for x in re.findall(r'return (patchNumber[^;]*);', io)]
+    if not rr or not pn:
+        raise Bad('restart-required / patch-number expressions not recognised in shorebird_updater_io.dart')
+    global DART_EXPRS
+    DART_EXPRS = (rr, pn)
     return fns, structs, consts, cases
+
+
+DART_EXPRS = ([], [])
 
 
 def erase(t):
@@ -333,6 +346,8 @@ def emit_abi():
     const_table('dart_consts', dc)
     out.append('Definition rust_status_variants : list (string * Z) := [%s].\n' % '; '.join('("%s", (%d)%%Z)' % v for v in rv))
     out.append('Definition dart_failure_cases : list (string * string) := [%s].\n' % '; '.join('("%s", "%s")' % c for c in dcases))
+    out.append('Definition dart_restart_required_exprs : list string := [%s].\n' % '; '.join('"%s"' % x for x in DART_EXPRS[0]))
+    out.append('Definition dart_patch_of_number_exprs : list string := [%s].\n' % '; '.join('"%s"' % x for x in DART_EXPRS[1]))
     return '\n'.join(out)
 
 
